@@ -5,13 +5,8 @@ V = os.path.dirname(os.path.dirname(os.path.abspath(__file__)))
 import glob
 cfg = {os.path.basename(f)[:-5]: json.load(open(f)) for f in glob.glob(os.path.join(V, "checks.d", "C*.json"))}
 props = [json.loads(l) for l in open(os.path.join(V, "properties.jsonl"))]
-hooks_commits = []
-hp = os.path.join(V, "MANIFEST.hooks")
-if os.path.exists(hp):
-    for l in open(hp):
-        l = l.strip()
-        if l and not l.startswith("#"):
-            hooks_commits.append(l.split()[0])
+hooks_commits = subprocess.run(["git", "-C", "/repo", "log", "--format=%h", "--grep", "^verif hook"], stdout=subprocess.PIPE, text=True).stdout.split()
+hooks_commits.reverse()
 ready = set(open(os.path.join(V, "tools", "ready.txt")).read().split())
 checks, na = [], []
 for p in props:
